@@ -98,8 +98,10 @@ impl<'a> TryFrom<String> for CharacterString<'a> {
 
 impl<'a> Display for CharacterString<'a> {
     fn fmt(&self, f: &mut std::fmt::Formatter<'_>) -> std::fmt::Result {
-        let s = std::str::from_utf8(&self.data).unwrap();
-        f.write_str(s)
+        match std::str::from_utf8(&self.data) {
+            Ok(s) => f.write_str(s),
+            Err(_) => f.write_str(&String::from_utf8_lossy(&self.data)),
+        }
     }
 }
 
